@@ -16,6 +16,15 @@ CHECKS = {
  "C14": dict(cat="proof", tech="abstract interpretation of hash_to_point: predicate extraction on the 16-bit sample, XOF identity, use analysis of n; call-graph effect analysis",
    text="Static, for every input string and both degrees: the XOF is sha3 SHAKE-256 absorbed once with exactly the input and squeezed 2 bytes at a time; bytes are combined big-endian; a sample is kept iff t in [0,61444] (characterised on the whole 16-bit range, equals 5q-1 and PQClean's threshold); the pushed value is t mod q and canonical; the result has exactly n coefficients; n influences only the loop exit (prefix property); the cone has no entropy/OS leaf. The suite has 3 known-answer strings and cannot see a threshold off by one (hit by ~1% of inputs).",
    note=TRUST + "SHAKE-256 itself (sha3 crate) is trusted.", ref="4/C14"),
+ "C06": dict(cat="other", tech="input-partitioned abstract interpretation of the three decoders",
+   text="Static, for every byte string and both variants: Ok is unreachable below/above the specified length; with the first byte fixed to each of its 256 values Ok is reachable for exactly the value the encoder writes (wrong header bits and the other variant's parameters are Err); every public-key coefficient that reaches the field on a non-Err path lies in [0,q-1] (no silent reduction of a field >= q); an accepted signature stores salt and body verbatim. Full bit-level round-trip equality for keys and the secret-key reserved pattern are not decided.",
+   note=TRUST + "Not decided: bit-level inverse-ness of the packing loops; secret-key reserved pattern.", ref="4/C06"),
+ "C08": dict(cat="other", tech="abstract interpretation of sign with value labels (origin / reaching definition of the salt array)",
+   text="Static, both variants: the salt returned in the signature is byte-for-byte the output of one fill_bytes call on the whole 40-byte array, drawn from the rand::thread_rng() handle created inside the same call of sign; nothing overwrites it; it does not depend on message or key; the hashed string contains that same draw and the message. Non-repetition itself is the CSPRNG's contract.",
+   note=TRUST + "Assumes rand::ThreadRng is an OS-seeded CSPRNG. Heavy numerical callees of sign are opaque in this run (they cannot touch the salt array: it is never passed to them).", ref="4/C08"),
+ "C15": dict(cat="other", tech="whole-program effect analysis on the monomorphic call graph + abstract interpretation of the seed flow + rustc unsafe_code lint",
+   text="Static: the monomorphic cones of keygen / generate_from_seed / from_secret_key (dyn RngCore resolved via the unsize coercions present) reach no OS/entropy/time/env leaf and no static outside an allow-list (positive control: sign and SecretKey::generate do reach OS entropy); each of the 32 seed bytes reaches StdRng::from_seed unmodified and in place, that generator is what ntru_gen receives, and ntru_gen/gen_poly/sampler_z draw only from their generator parameter; the crate has no static, thread-local or unsafe code. `Every seed bit matters` is not decided.",
+   note=TRUST + "std's precompiled non-generic functions are opaque leaves classified by name (rules/effects.py).", ref="4/C15"),
 }
 NA = {
  "C17": "algebraic/numeric equivalence of two Babai reductions at run-time magnitudes; no structural clause that is both decidable and a substantial necessary condition (DESIGN.md section 4, C17)",
